@@ -25,7 +25,7 @@ structure TInv (T : Int) (sp : SpecSt) (st : St) : Prop where
   qinv : QInv st
 
 theorem tinv_init (k : Kind) : TInv 990 (specInit k) (initSt k) where
-  rel := ⟨rfl, rfl, fun h => by simp [specInit] at h, fun _ => rfl, rfl, ⟨rfl, rfl⟩, Pw.nil⟩
+  rel := ⟨rfl, rfl, fun h => by simp [specInit] at h, fun _ => rfl, rfl, rfl, Pw.nil⟩
   sinv := ⟨by simp [initSt], by simp [initSt], fun d hd => by simp [initSt] at hd⟩
   pend := fun d hd => by simp [initSt] at hd
   ainv := ⟨by simp [initSt], fun d hd => by simp [initSt] at hd⟩
